@@ -171,6 +171,10 @@ func (t *tagTracer) nearFirstPeers(msg *Message) []peer.ID {
 	}
 	peers := make([]peer.ID, 0, len(peersMap))
 	for p := range peersMap {
+		if p == msg.ReceivedFrom {
+			// the first deliverer sent it again while it was validating; it is credited once
+			continue
+		}
 		peers = append(peers, p)
 	}
 	return peers
